@@ -315,6 +315,52 @@ def run_all(ctx, cases, tag):
     return rc, log, impl, merrs, model, dt
 
 
+
+def coq_bytes(hexs):
+    b = bytes.fromhex(hexs) if hexs not in ('-', '') else b''
+    return '[' + ';'.join(str(x) for x in b) + ']%N'
+
+
+def vm_sample(ctx, cases, impl, model):
+    """Thorough tier: evaluate the model on a few real packets INSIDE Coq (vm_compute), so that extraction is not the
+    only execution path.  Returns list of (what, detail) problems."""
+    picks = []
+    for cid, line, c in cases:
+        if c['kind'] == 'H' and c.get('dh') == 'g' and cid in impl and cid in model:
+            picks.append((cid, c, kv(impl[cid]), kv(model[cid])))
+        if len(picks) >= 3:
+            break
+    if not picks:
+        return []
+    src = ['From Coq Require Import NArith ZArith List.', 'From Cloak Require Import Model.HelloGrammar Model.Auth.',
+           'Import ListNotations.', 'Definition show (r : sres) : option (list N * list N * N * N * bool) :=',
+           '  match r with Accept i _ _ => Some (i_uid i, i_method i, i_enc i, i_sid i, i_unordered i) | _ => None end.']
+    want = []
+    for n, (cid, c, g, m) in enumerate(picks):
+        f = 'x_server_process_tls' if g['tr'] == 'tls' else 'x_server_process_ws'
+        src.append('Definition r%d := Eval vm_compute in show (%s dh_x25519 %s %s %d%%Z).' % (n, f, coq_bytes(g['fp']), coq_bytes(g['spv']), c['snow']))
+        src.append('Print r%d.' % n)
+        want.append((cid, g['S']))
+    path = '%s/vmsample.v' % ctx.work
+    open(path, 'w').write('\n'.join(src) + '\n')
+    rc, out, dt = vlib.sh(['coqc', '-Q', vlib.COQ, 'Cloak', '-o', path + 'o', path], cwd=ctx.work, timeout=900)
+    if rc != 0:
+        return [('vm_compute sample of the C06 model failed to evaluate', out[-1500:])]
+    probs = []
+    flat = re.sub(r'\s+', ' ', out).replace('%N', '')
+    for n, (cid, s_go) in enumerate(want):
+        mm = re.search(r'r%d = Some \(\[([0-9; ]*)\], \[([0-9; ]*)\], (\d+), (\d+), (true|false)\)' % n, flat)
+        if not mm:
+            probs.append(('vm_compute sample: model inside Coq did not accept case %s' % cid, flat[:600]))
+            continue
+        tohex = lambda t: hx(bytes(int(x) for x in t.replace(' ', '').split(';') if x))
+        got = 'A:%s:%s:%x:%x:%s' % (tohex(mm.group(1)), tohex(mm.group(2)), int(mm.group(3)), int(mm.group(4)), '1' if mm.group(5) == 'true' else '0')
+        if got != s_go:
+            probs.append(('vm_compute sample: model inside Coq says %s, implementation %s (case %s)' % (got, s_go, cid), ''))
+    ctx.notes.append('vm_compute sample: %d real first packets processed by the model inside Coq (Gallina X25519 + AES-GCM) in %.0f s' % (len(want), dt))
+    return probs
+
+
 def correspondence(ctx, verdict, pr):
     res = dict(broken=[])
     cases = []
@@ -379,6 +425,8 @@ def correspondence(ctx, verdict, pr):
         res['broken'].append(('model Auth.v/HelloGrammar.v vs client+server handshake code: %d of %d cases differ' % (len(mism), len(cases)),
                               'smallest differing case: %s\n%s\nimplementation: %s' % (line, why, io[:1500])))
         ctx.mismatch_cases = [(m[0], m[1]) for m in mism[:20]]
+    if not ctx.quick() and rc == 0 and not merrs:
+        res['broken'] += vm_sample(ctx, cases, impl, model)
     nh = sum(1 for c in cases if c[2]['kind'] == 'H')
     verdict.cov.update(
         evaluations=len(cases), distinct_nontrivial=len(distinct),
@@ -391,14 +439,6 @@ def correspondence(ctx, verdict, pr):
         gallina_x25519_handshakes=sum(1 for c in cases if c[2].get('dh') == 'g'),
         input_distribution=vlib.summarize_dist(kinds), corpus_cases=ncorpus, go_seconds=round(dt, 1), exhaustive=False)
     return res
-
-
-def search(ctx, verdict, problems):
-    """Proof or correspondence broken and the oracle found nothing on the standard cases: the cases on which model and
-    implementation differ are the candidates; a differing handshake whose own outcome violates the property text was already
-    reported by the oracle, so here only the direct consequence check remains: run the differing cases again and apply the
-    oracle to each (covers D-only differences by lifting them to a handshake with that clock offset)."""
-    return False
 
 
 def replay(ctx, verdict):
